@@ -7,7 +7,7 @@ WT=/tmp/wt-seedcheck-$$
 for d in seeded/${1:-}*/; do
   name=$(basename $d)
   [ -f $d/patch.diff ] || continue
-  pid=$(python3 -c "import json;print(json.load(open('$d/meta.json'))['property'])")
+  pid=$(python3 -c "import json;m=json.load(open('$d/meta.json'));print(m.get('check_with') or m['property'])")
   obs=$(python3 -c "import json;print(json.load(open('$d/meta.json')).get('obsolete',''))")
   if [ -n "$obs" ]; then echo "$name ($pid): OBSOLETE — $obs" | cut -c1-200; continue; fi
   git -C /repo worktree add -q $WT HEAD || exit 2
